@@ -22,9 +22,10 @@ PROFILES = {
                  new_cells=4, del_cells=3, del_space=2, rename_space=2),
     "value": dict(call=45, set_value=25, clear_at=15, clear=5, clear_all=5, set_ref=3,
                   set_formula=2, del_space=1),
-    "fail": dict(call=60, set_formula=20, set_ref=8, del_ref=6, set_value=4, clear_at=2),
+    "fail": dict(call=60, set_formula=20, set_ref=8, del_ref=6, set_value=4, clear_at=2, trace=2),
     "flags": dict(call=45, set_cached=20, set_ref=12, del_ref=4, set_formula=8,
-                  set_value=4, clear_at=2, set_allow_none=3, new_cells=1, del_cells=1),
+                  set_value=4, clear_at=2, set_allow_none=3, new_cells=1, del_cells=1,
+                  del_space=1, rename_space=2),
 }
 
 
@@ -525,6 +526,12 @@ class Gen:
         return {"op": "new_cells", "s": list(p), "c": c,
                 "rec": {"f": self.formula(p, c), "cached": rng.random() >= self.p_uncached,
                         "an": 0}}
+
+    def mk_trace(self):
+        # a call-stack trace session is switched on or off (mx.start_stacktrace / stop_stacktrace:
+        # the executor's stack object is replaced; nothing else may change)
+        self.tracing = not getattr(self, "tracing", False)
+        return {"op": "trace", "on": self.tracing}
 
     def mk_del_space(self):
         sp = self.mir["sp"]
